@@ -180,6 +180,8 @@ public:
 
 	void operator=(const HashMap& b)
 	{
+		if (&b == this) // self-assignment would release (and empty) the table it is about to share
+			return;
 		if (--_rc() == 0) {
 			clear();
 			asl_destroy((AtomicCount*)&a[1]);
